@@ -402,14 +402,14 @@ func validateOrigin(p []byte, length int, pos pars.Position) error {
 		pos.Byte += len(prefix)
 
 		for j := 0; j < 60 && i+j < length; j += 10 {
-			if p[offset] != spaceByte {
+			if offset >= len(p) || p[offset] != spaceByte {
 				return pars.NewError("expected whitespace", pos)
 			}
 			offset++
 			pos.Byte++
 
 			for k := 0; k < 10 && i+j+k < length; k++ {
-				if !isBaseCharacter(p[offset]) {
+				if offset >= len(p) || !isBaseCharacter(p[offset]) {
 					return pars.NewError("expected character", pos)
 				}
 				offset++
@@ -417,7 +417,7 @@ func validateOrigin(p []byte, length int, pos pars.Position) error {
 			}
 		}
 
-		if p[offset] != '\n' {
+		if offset >= len(p) || p[offset] != '\n' {
 			return pars.NewError("expected newline", pos)
 		}
 		offset++
@@ -446,14 +446,14 @@ func slowGenBankOriginParser(length int) pars.Parser {
 			extent += len(prefix)
 
 			for j := 0; j < 60 && i+j < length; j += 10 {
-				if q[extent] != spaceByte {
+				if extent >= len(q) || q[extent] != spaceByte {
 					pos.Byte += extent
 					return pars.NewError("expected whitespace", pos)
 				}
 				extent++
 
 				for k := 0; k < 10 && i+j+k < length; k++ {
-					if !isBaseCharacter(q[extent]) {
+					if extent >= len(q) || !isBaseCharacter(q[extent]) {
 						pos.Byte += extent
 						return pars.NewError("expected character", pos)
 					}
